@@ -14,13 +14,13 @@ use serde_json::json;
 pub const PROP: PropDef = PropDef {
     id: "C11",
     parts,
-    rule: "1-2 clients issuing 1-2 requests each with options {scheduled, on-demand}; machine script chosen by the environment per iteration {throttled, no-update, update + install + reboot wait with the reboot refused once}; every operation of the flow blocks (timers, HTTP exchanges, plan creation, install, progress, reboot) and the explorer chooses at each step which pending operation completes / which task runs / the order of `select!` branches, bounded to 2 (quick) / 3 (thorough) non-default scheduling choices, while the step at which each request is injected is enumerated exhaustively; extra parts drop all handles / drop the stream at every step; after the horizon the run is drained with default scheduling and every request must have been answered; non-trivial = at least one request was answered while the machine was not simply idle-waiting, or a drop happened",
+    rule: "1-2 clients issuing 1-2 requests each with options {scheduled, on-demand}; machine script chosen by the environment per iteration {throttled, no-update, update + install + reboot wait with the reboot refused once or twice}; every operation of the flow blocks (timers, HTTP exchanges, plan creation, install, progress, reboot) and the explorer chooses at each step which pending operation completes / which task runs / the order of `select!` branches, bounded to 2 (quick) / 3 (thorough) non-default scheduling choices, while the step at which each request is injected is enumerated exhaustively; extra parts drop all handles / drop the stream at every step; after the horizon the run is drained with default scheduling and every request must have been answered; non-trivial = at least one request was answered while the machine was not simply idle-waiting, or a drop happened",
     assumptions: &["ControlHandle is used from the same thread as the state machine (futures-channel's cross-thread atomics are not instrumented)"],
 };
 
 struct D {
-    refuse_reboot_once: bool,
-    refused: bool,
+    reboot_refusals: usize,
+    refused: usize,
 }
 impl Director for D {
     fn check_allowed(&mut self, w: &mut Inner, opts: Src) -> CheckAns {
@@ -47,11 +47,12 @@ impl Director for D {
             progress: vec![0.5],
             results: vec![AppRes::Installed; offered],
             install_result: "r".into(),
+            await_last_ack: true,
         }
     }
     fn reboot_allowed(&mut self, _w: &mut Inner, _o: Src) -> bool {
-        if self.refuse_reboot_once && !self.refused {
-            self.refused = true;
+        if self.refused < self.reboot_refusals {
+            self.refused += 1;
             false
         } else {
             true
@@ -277,10 +278,19 @@ fn oracle(log: &[Obs], stream_dropped_at: Option<usize>) -> V {
                         return bad("on-demand request during the reboot wait does not trigger the reboot question", format!("sent #{} answered #{rp}", r.sent));
                     }
                     if r.opts == Src::Scheduled {
-                        let asked = log[r.sent..rp.min(log.len())].iter().any(|o| matches!(o, Obs::RebootAllowed { .. }));
-                        let timer_fired = log[r.sent..rp.min(log.len())].iter().any(|o| matches!(o, Obs::Fired(_, OpKind::TimerFor)));
-                        if asked && !timer_fired {
-                            return bad("scheduled request during the reboot wait triggers a reboot question", format!("sent #{} answered #{rp}", r.sent));
+                        // every question asked while this request was in flight must be justified
+                        // by a firing of a wait_for timer since the previous question, or by an
+                        // on-demand request in flight at that moment
+                        for (qi, o) in log.iter().enumerate().take(rp.min(log.len())).skip(r.sent) {
+                            if !matches!(o, Obs::RebootAllowed { .. }) {
+                                continue;
+                            }
+                            let prev_q = log[..qi].iter().rposition(|o| matches!(o, Obs::RebootAllowed { .. })).unwrap_or(*a);
+                            let timer_fired = log[prev_q..qi].iter().any(|o| matches!(o, Obs::Fired(_, OpKind::TimerFor)));
+                            let ondemand_in_flight = reqs.iter().any(|x| x.opts == Src::OnDemand && x.sent < qi && x.reply.as_ref().map(|y| y.0 > qi).unwrap_or(true));
+                            if !timer_fired && !ondemand_in_flight {
+                                return bad("scheduled request during the reboot wait triggers a reboot question", format!("sent #{} answered #{rp}, question #{qi}", r.sent));
+                            }
                         }
                     }
                 }
@@ -304,8 +314,8 @@ fn run(ctx: &RunCtx, tier: Tier, two: bool) -> RunOut {
     s.blocking = Blocking::all();
     s.select = SelectMode::Script;
     let d = D {
-        refuse_reboot_once: true,
-        refused: false,
+        reboot_refusals: 1 + choose("reboot_refusals", 2),
+        refused: 0,
     };
     let mut e = Exec::new(s, Box::new(d), Store::default());
     for _c in 0..n_clients {
@@ -412,8 +422,8 @@ fn run_with_budget(ctx: &RunCtx, mode: DropMode) -> RunOut {
     s.blocking = Blocking::all();
     s.select = SelectMode::Identity;
     let d = D {
-        refuse_reboot_once: true,
-        refused: false,
+        reboot_refusals: 1,
+        refused: 0,
     };
     let mut e = Exec::new(s, Box::new(d), Store::default());
     if n_clients > 0 {
@@ -490,13 +500,13 @@ fn parts(tier: Tier) -> Vec<PartDef> {
     };
     let mut v = match tier {
         Tier::Quick => vec![
-            one("one-request", 1, &["options", "inject", "policy.check", "server.update"], false),
+            one("one-request", 1, &["options", "inject", "policy.check", "server.update", "reboot_refusals"], false),
             one("two-requests", 0, &["clients", "options", "inject", "policy.check", "server.update"], true),
         ],
         Tier::Thorough => vec![
-            one("one-request", 3, &["options", "inject"], false),
-            one("one-request-all-scripts", 1, &["options", "inject", "policy.check", "server.update"], false),
-            one("two-requests", 1, &["clients", "options", "inject"], true),
+            one("one-request", 3, &["options", "inject", "reboot_refusals"], false),
+            one("one-request-all-scripts", 1, &["options", "inject", "policy.check", "server.update", "reboot_refusals"], false),
+            one("two-requests", 1, &["clients", "options", "inject", "reboot_refusals"], true),
         ],
     };
     v.push(PartDef::new(
